@@ -1005,6 +1005,8 @@ class FitBase(FileIOMixin, object):
             _reference_object = self._param_model
         else:
             raise ValueError("Cannot add error: unknown reference specification '{}'," "expected one of: 'data', 'model'...".format(reference))
+        if name is not None and name in self.get_matching_errors():
+            raise ValueError("Cannot create error source with name '{}': there is already an error source registered under that name!".format(name))
 
         _ret = _reference_object.add_error(err_val=err_val, name=name, correlation=correlation, relative=relative, **kwargs)
 
@@ -1051,6 +1053,8 @@ class FitBase(FileIOMixin, object):
             raise ValueError(
                 "Cannot add matrix error: unknown reference " "specification '{}', expected one of: 'data', 'model'...".format(reference)
             )
+        if name is not None and name in self.get_matching_errors():
+            raise ValueError("Cannot create error source with name '{}': there is already an error source registered under that name!".format(name))
 
         _ret = _reference_object.add_matrix_error(
             err_matrix=err_matrix,
